@@ -1,8 +1,8 @@
 import RLV.Model.HistCalls
 /-! Walking through the history and accepting lines, over any number of commands and calls: the invariant
 that makes the walk show the stored entries (`Inv`), and its preservation by every command. -/
-namespace RLV.Hist
-open RLV.Core
+namespace RLV.Hist.Calls
+open RLV.Core RLV.Hist
 
 theorem lookup_filter_ne (k k' : Int) (hk : k' ≠ k) : ∀ (l : List (Int × LH)),
     (l.filter (fun e => e.1 != k)).lookup k' = l.lookup k'
@@ -629,4 +629,4 @@ theorem run_inv (m : Int) : ∀ (ops : List HOp) (s s' : St), Inv s → runUnedi
 theorem inv_start (src : List (List Nat)) : Inv { src := src } :=
   ⟨rfl, rfl, fun _ => rfl, fun k _ it hit => by simp [getLH] at hit, Or.inl rfl⟩
 
-end RLV.Hist
+end RLV.Hist.Calls
